@@ -162,12 +162,22 @@ func (a *accessManager) isBlockedClientID(id string) (ok bool) {
 
 // isBlockedHost returns true if host should be blocked.
 func (a *accessManager) isBlockedHost(host string, qt rules.RRType) (ok bool) {
-	_, ok = a.blockedHostsEng.MatchRequest(&urlfilter.DNSRequest{
+	res, ok := a.blockedHostsEng.MatchRequest(&urlfilter.DNSRequest{
 		Hostname: host,
 		DNSType:  qt,
 	})
+	if !ok {
+		return false
+	}
 
-	return ok
+	// The engine also reports a match when the rule of the highest priority is
+	// an exception one, i.e. when the host is explicitly excluded from the
+	// list.
+	if nr := res.NetworkRule; nr != nil && nr.Whitelist {
+		return false
+	}
+
+	return true
 }
 
 // isBlockedIP returns the status of the IP address blocking as well as the rule
